@@ -43,6 +43,7 @@ def tier2(tier, rng):
 
 
 TIER1 = ("Geradeweg", "solve_geradeweg_model")
+TIER1_PRIM = ("GeradewegPrim", "solve_geradeweg_model_prim")
 
 
 def tier1_problems(tier, rng):
